@@ -279,3 +279,25 @@ Qed.
 Theorem extra_value_order_is_model : forall a s, fst (snd (snd (var_code (VExtra a s)))) = a /\
   sindex (if a then "Arbitrary" else "Extra") extra_value_order = (if a then 1 else 0)%N.
 Proof. intros a s; destruct a; split; reflexivity. Qed.
+
+(** * URL schemes (src/verbatim_url.rs [Scheme]) *)
+
+Theorem scheme_display_parses_back : forall x : Tables.scheme, lookup scheme_of_text (scheme_text x) = Some x.
+Proof. intros x; destruct x; reflexivity. Qed.
+
+Theorem scheme_table_nodup : NoDup (map fst scheme_of_text) /\ List.length scheme_of_text = List.length scheme_all.
+Proof. split; [|reflexivity]. cbn. repeat (constructor; [cbn; intuition discriminate|]). constructor. Qed.
+
+(** the model's scheme recogniser (Text/ReqParse.v [scheme_parse]: `file`, or one of [other_schemes]) uses exactly the
+    texts of the source's table, split by [is_file] *)
+Theorem scheme_lists_are_model :
+  map (fun p => T (fst p)) (filter (fun p => negb (scheme_is_file (snd p))) scheme_of_text) = ReqParse.other_schemes /\
+  map fst (filter (fun p => scheme_is_file (snd p)) scheme_of_text) = ["file"].
+Proof. split; reflexivity. Qed.
+
+Theorem scheme_parse_is_model : forall s x, List.In (s, x) scheme_of_text ->
+  ReqParse.scheme_parse (T s) = Some (if scheme_is_file x then SFile else SOther).
+Proof.
+  intros s x H. cbn in H.
+  repeat (destruct H as [H|H]; [injection H as <- <-; vm_compute; reflexivity|]). destruct H.
+Qed.
